@@ -16,6 +16,12 @@ CLAIMED = {
   "note": "Trusted: Lean kernel and the three standard axioms; hand-written model of token.rs/excerpt.rs/parser.rs/eval.rs/builtin_fn.rs/bigint.rs tied by differential execution; translator regexes for the precedence/token tables; parse_print (parser inverts printing for all trees) is not a theorem yet - precedence between levels rests on the extracted table + correspondence; strings with first byte >= 0x80 are negative integers (known finding F20).",
   "technique": "Lean 4 proof (induction, bit extensionality, omega) + extracted tables + model/implementation correspondence",
  },
+ "C11": {
+  "text": "Lean 4 theorems over the model of bitvec_format.rs (Casm/Props/C11.lean): chunks_decode - for every bit string of every length and every chunk width k, re-expanding the k-bit chunks a format prints yields the assembled bits zero-padded to a whole chunk (covers raw binary, bit/hex strings, dumps, MIF, separator and C-array forms, both Logisim forms, which all print `chunks bits k`); dump_covers/dump_tight (line count covers every bit, no empty extra line); Intel HEX: records of a block carry exactly the block's bytes in order (ihex_block_bytes), <= 32 bytes per record, checksum makes every record sum to 0 mod 256. The rendered text of the model is compared byte for byte with driver::format_output for every format and parameter on lengths 0..4096; independent Python decoders re-read the implementation's text.",
+  "design_ref": "DESIGN.md section 6, C11",
+  "note": "Trusted: Lean kernel + three standard axioms; the model's text rendering is tied by correspondence only (no text-level parse theorem); Intel HEX addresses are 16-bit and blocks must be byte/unit aligned (known finding F19 otherwise).",
+  "technique": "Lean 4 proof (round-trip by list extensionality, induction) + byte-exact model/implementation correspondence",
+ },
 }
 
 NOT_YET = {}
